@@ -59,7 +59,7 @@ Definition client_network_data (channel_count : N) (channel_def_array : bytes) :
 
 (* channelCount sizes the id array: count * 2 in usize *)
 Definition server_network_data : msg :=
-  MComp [ ("MCSChannelId", MCheck (g_u16 1003));
+  MComp [ ("MCSChannelId", g_u16 0);
           ("channelCount", MDyn (g_u16 0) (CloSize "channelIdArray" (XMul XSelf 2)));
           ("channelIdArray", MArray [] (Some (g_u16 0))) ].
 
@@ -127,7 +127,7 @@ Fixpoint u16_values (l : list msg) : outcome (list N) :=
                end
   end.
 
-Definition gcc_server_data (b : blocks) : outcome (list N * gcc_version) :=
+Definition gcc_server_data (b : blocks) : outcome (N * list N * gcc_version) :=
   match b_net b with
   | None => Err EInvalidData                                       (* result.get(&MessageType::ScNet).ok_or(..)? *)
   | Some net =>
@@ -140,14 +140,15 @@ Definition gcc_server_data (b : blocks) : outcome (list N * gcc_version) :=
               match trame_of arr with
               | None => Err EInvalidCast
               | Some els =>
+                  obind (cast_num 16 (get net "MCSChannelId")) (fun io =>          (* global_channel_id *)
                   obind (u16_values els) (fun ids =>
-                    obind (cast_num 32 (get core "rdpVersion")) (fun v => Ok (ids, version_from v)))
+                    obind (cast_num 32 (get core "rdpVersion")) (fun v => Ok (io, ids, version_from v))))
               end
           end
       end
   end.
 
-Definition gcc_read_conference_create_response (p : prof) (input : bytes) : outcome (list N * gcc_version) :=
+Definition gcc_read_conference_create_response (p : prof) (input : bytes) : outcome (N * list N * gcc_version) :=
   obind (per_read_choice input) (fun '(_, r1) =>
   obind (per_read_object_identifier T124_02_98_OID r1) (fun '(_, r2) =>     (* the comparison result is dropped *)
   obind (per_read_length r2) (fun '(_, r3) =>
